@@ -132,15 +132,17 @@ Definition do_drop (st : state) (h : Z) : state := set_dead st (h :: s_dead st).
 Inductive logitem :=
 | LExec (e : event) (clock : Z)          (* the callable of e ran, with simulator.time = clock *)
 | LStep (steps clock : Z)                (* model.step ran: model.steps after the increment, clock *)
-| LSched (rc tag t : Z).                 (* user code called schedule_event_*: outcome, tag, time *)
+| LSched (rc tag t : Z)                  (* user code called schedule_event_*: outcome, tag, time *)
+| LCancel (tag : Z)                      (* cancel_event on the event(s) known under this tag (not observed: *)
+| LDrop (holder : Z).                    (* dropping a holder    - kept for the statements of the theorems) *)
 
 Definition do_act (cfg : config) (st : state) (a : act) : state * list logitem :=
   match a with
   | ASched k t p tag h body =>
       let '(st1, rc) := do_sched cfg st k t p tag h body in
       (st1, [LSched rc tag (if rc =? R_OK then sched_time st k t else 0)])
-  | ACancel tag => (do_cancel st tag, [])
-  | ADrop h => (do_drop st h, [])
+  | ACancel tag => (do_cancel st tag, [LCancel tag])
+  | ADrop h => (do_drop st h, [LDrop h])
   end.
 
 Fixpoint do_acts (cfg : config) (st : state) (acts : list act) : state * list logitem :=
@@ -216,6 +218,8 @@ Definition enc_log (i : logitem) : list Z :=
   | LExec e c => [0; e_tag e; c]
   | LStep k c => [3; k; c]
   | LSched rc tag t => [if rc =? R_OK then 4 else rc; tag; t]
+  | LCancel _ => []
+  | LDrop _ => []
   end.
 Definition enc_ev (e : event) : list Z := [e_tag e; e_time e; e_prio e].
 
@@ -235,8 +239,8 @@ Definition step_op (cfg : config) (fuel : nat) (st : state) (o : op) : state * l
       let '(st1, rc) := do_sched cfg st k t p tag h body in
       let hd := if rc =? R_OK then [0] else if rc =? R_SKIP then [-2] else [-1; rc] in
       (st1, hd ++ view st1 [], [])
-  | OCancel tag => let st1 := do_cancel st tag in (st1, 0 :: view st1 [], [])
-  | ODrop h => let st1 := do_drop st h in (st1, 0 :: view st1 [], [])
+  | OCancel tag => let st1 := do_cancel st tag in (st1, 0 :: view st1 [], [LCancel tag])
+  | ODrop h => let st1 := do_drop st h in (st1, 0 :: view st1 [], [LDrop h])
   | ORunUntil t =>
       let '(st1, l, ok) := run_loop cfg fuel t st in
       (st1, (if ok then 0 else -4) :: view st1 l, l)
